@@ -767,7 +767,13 @@ func (dc *dbCase) emit(c *h.Ctx, sites []site) {
 		go func(i int) {
 			defer wg.Done()
 			defer func() { <-sem }()
-			res[i] = runSite(dc.master, dc.files, dc.wseed, sites[i], len(dc.events))
+			if p, v := h.Try(func() { res[i] = runSite(dc.master, dc.files, dc.wseed, sites[i], len(dc.events)) }); p {
+				msg := strings.ReplaceAll(strings.ReplaceAll(fmt.Sprint(v), " ", "_"), "\n", "_")
+				if len(msg) > 120 {
+					msg = msg[:120]
+				}
+				res[i] = siteResult{obs: "open1=panic:" + msg + " tree1=n/a present1=- new=- app=- open2=- present2=-", repair: "none"}
+			}
 		}(i)
 	}
 	wg.Wait()
@@ -862,7 +868,19 @@ func (dc *dbCase) genSites(r *h.Rng, stride int) []site {
 		}
 	}
 	var sites []site
+	newest := map[string]int{}
 	for _, f := range targets {
+		if f.seg > newest[f.class] {
+			newest[f.class] = f.seg
+		}
+	}
+	stride0 := stride
+	for _, f := range targets {
+		// thorough (stride 1): every offset of the newest file of each class, every 3rd of the older ones
+		stride := stride0
+		if stride0 == 1 && f.seg != newest[f.class] {
+			stride = 3
+		}
 		phase := 0
 		if stride > 1 {
 			phase = r.Intn(stride)
@@ -877,7 +895,7 @@ func (dc *dbCase) genSites(r *h.Rng, stride int) []site {
 		}
 		for _, o := range offs {
 			for _, m := range muts {
-				if stride > 1 && !r.Chance(60) {
+				if stride0 > 1 && !r.Chance(60) {
 					continue
 				}
 				sites = append(sites, site{f.class, f.seg, o, m})
@@ -1181,8 +1199,15 @@ func wlCase(c *h.Ctx, r *h.Rng, id int) {
 	pps := 1 + r.Intn(2)
 	run(fmt.Sprintf("wopen %d", pps))
 	nlog := 1 + r.Intn(4)
+	hasEmpty := false
 	for i := 0; i < nlog; i++ {
-		run("wlog " + genPairs(r, 1+r.Intn(6)))
+		ps := genPairs(r, 1+r.Intn(6))
+		for _, p := range parsePairs(ps) {
+			if p[0] == 0 {
+				hasEmpty = true
+			}
+		}
+		run("wlog " + ps)
 	}
 	run("wclose")
 	files := segFiles(ws.dir)
@@ -1212,7 +1237,17 @@ func wlCase(c *h.Ctx, r *h.Rng, id int) {
 	if off < 0 {
 		off = 0
 	}
-	mut := h.Pick(r, []string{"trunc", "trunc", "flip0", "flip7", "zero", fmt.Sprintf("xor%d", 1+r.Intn(255))})
+	mask := 1 + r.Intn(255)
+	if hasEmpty {
+		// An EMPTY fragment whose compression flag gets set is returned as an empty record by the real reader
+		// (compression.Decode returns empty input unchanged); the framing model of C13 treats every
+		// compressed fragment as outside its scope, so keep such masks away from logs with empty records.
+		mask &^= 0x18
+		if mask == 0 {
+			mask = 1
+		}
+	}
+	mut := h.Pick(r, []string{"trunc", "trunc", "flip0", "flip7", "zero", fmt.Sprintf("xor%d", mask)})
 	run(fmt.Sprintf("wdamage %d %d %s", seg, off, mut))
 	out := run("wread")
 	if strings.Contains(out, " err:") {
@@ -1309,10 +1344,11 @@ func main() {
 		}
 		return
 	}
-	// n = number of wlog-level cases; DB cases: quick 1 (sampled offsets), thorough 3 (every offset).
+	// n = number of wlog-level cases; DB cases: quick 1 (sampled offsets), thorough 2 (every offset of the
+	// newest file of each class, every 3rd offset of the older ones).
 	ndb, stride := 1, 12
 	if c.Tier == "thorough" {
-		ndb, stride = 3, 1
+		ndb, stride = 2, 1
 	}
 	if v, ok := c.Extra["ndb"]; ok {
 		ndb, _ = strconv.Atoi(v)
